@@ -40,6 +40,12 @@ func stateAnnotation(s *Scanner, c byte) *jerr.JApiError {
 func stateMultilineAnnotationTextStart(s *Scanner, c byte) *jerr.JApiError {
 	s.foundAt(s.curIndex, AnnotationBegin)
 	s.step = stateMultilineAnnotation
+	if c == AnnotationDelimiterPart {
+		// The "*" in front of the first character belongs to the opening "/*", so
+		// "/*/" does not close the annotation (it used to produce an annotation
+		// ending before its beginning).
+		return nil
+	}
 	return stateMultilineAnnotation(s, c)
 }
 
